@@ -86,7 +86,20 @@ impl<'a, D: DataT> Ctx<'a, D> {
 
     /// Add a new filter binding.
     fn cons_fun(mut self, (f, ctx): (Id, Self)) -> Self {
-        self.vars.0 = self.vars.0.cons(Bind::Fun((f, ctx.vars)));
+        // If `f` merely refers to a filter argument of the calling context (like `g` in `f(g)`),
+        // bind the closure that it refers to, instead of wrapping it in a new closure.
+        // Otherwise, a definition that passes its filter arguments on to a recursive call,
+        // such as `def f(g): ... | f(g)`, builds a chain of closures that
+        // grows with every call and is run through with native recursion.
+        let closure = match &ctx.lut().terms[f.0] {
+            Ast::Var(v) => match ctx.vars.get(*v) {
+                Some(Bind::Fun(closure)) => Some(closure.clone()),
+                _ => None,
+            },
+            _ => None,
+        };
+        let closure = closure.unwrap_or((f, ctx.vars));
+        self.vars.0 = self.vars.0.cons(Bind::Fun(closure));
         self
     }
 
